@@ -1,4 +1,51 @@
+(* C20 - B-tree zone flags, delegation index and bounds are a function of zone content. *)
 From DV Require Import Base.Prelude Model.NameM Model.BTZoneM.
-Theorem placeholder_c20 : exec (mkCfg true [[]]) [] = zone0.
-Proof. reflexivity. Qed.
-Print Assumptions placeholder_c20.
+From DV Require Import Proofs.BTZoneOrder Proofs.BTZoneList Proofs.BTZoneSpec Proofs.BTZoneInv Proofs.BTZoneMain.
+Open Scope Z_scope.
+
+(* After any history of transactions (replacement loads, adds, replaces, deletes by name, type or
+   rdata, commits and rollbacks; nested cuts included) the flags of every node and the delegation
+   index of the newest committed version are the documented function of the zone content. *)
+Theorem incremental_eq_spec : forall c h,
+    history_ok c h ->
+    let z := exec c h in
+    (forall n nd, In (n, nd) (z_nodes z) -> nflags nd = flags_of c (z_nodes z) (n, nd)) /\
+    map ekey (map fst (z_delegs z)) = map ekey (delegations_of c (z_nodes z)).
+Proof. exact incremental_eq_spec_main. Qed.
+Print Assumptions incremental_eq_spec.
+
+(* Names iterate in strictly increasing canonical order (NameM.order is dns.name's fullcompare). *)
+Theorem iteration_canonical : forall c h,
+    history_ok c h -> increasing (map fst (z_nodes (exec c h))).
+Proof. exact iteration_canonical_main. Qed.
+Print Assumptions iteration_canonical.
+
+(* A transaction operation fails only in dns.zone._validate_name: the KeyError of
+   `del self.nodes[name]` in delete_node / delete_rdataset is unreachable. *)
+Theorem step_fails_only_in_validation : forall c v o,
+    Inv c v -> name_ok c (top_name o) ->
+    (exists v', tstep c v o = Ok v') \/ (forall n', validate_name c (top_name o) <> Ok n').
+Proof. exact tstep_fails_only_in_validation. Qed.
+Print Assumptions step_fails_only_in_validation.
+
+(* ---- non-vacuity: a relativized zone with nested cuts b > a.b > q.z.a.b, loaded inner cut first,
+        then the outer cut is removed in a second transaction ---- *)
+Definition ex_cfg := mkCfg true [[101;120]; []].   (* origin "ex." *)
+Definition la := [97]. Definition lb := [98]. Definition lz := [122]. Definition lq := [113].
+Definition ex_h : list txn :=
+  [ mkTxn true true [TAdd [] 2 [1]; TAdd [la; lb] 2 [1]; TAdd [lq; lz; la; lb] 2 [2];
+                     TAdd [lz; la; lb] 1 [1]; TAdd [lb] 2 [1]; TAdd [lb; [101;120]; []] 1 [7]];
+    mkTxn false true [TDelType [lb] 2] ].
+
+Ltac name_ok_tac :=
+  let n' := fresh in let H := fresh in
+  intros n' H; vm_compute in H; inversion H; subst; eexists; vm_compute; reflexivity.
+
+Example ex_history_ok : history_ok ex_cfg ex_h.
+Proof. repeat constructor; name_ok_tac. Qed.
+
+Example ex_result :
+  map (fun e => (fst e, nflags (snd e))) (z_nodes (exec ex_cfg ex_h)) =
+    [([], 1); ([lb], 0); ([la; lb], 2); ([lz; la; lb], 4); ([lq; lz; la; lb], 4)]
+  /\ map fst (z_delegs (exec ex_cfg ex_h)) = [[la; lb]].
+Proof. vm_compute. split; reflexivity. Qed.
